@@ -73,6 +73,7 @@ type State struct {
 	entry  *State // snapshot at function entry (for old())
 	lets   map[string]SV
 	trace  []string
+	rewrites map[int]*Term // term id -> constant fixed by a case split on this path
 }
 
 func (st *State) clone() *State {
@@ -93,6 +94,12 @@ func (st *State) clone() *State {
 	nf := *st.nfresh
 	n.nfresh = &nf
 	n.trace = append([]string{}, st.trace...)
+	if st.rewrites != nil {
+		n.rewrites = make(map[int]*Term, len(st.rewrites))
+		for k, v := range st.rewrites {
+			n.rewrites[k] = v
+		}
+	}
 	return &n
 }
 
@@ -118,6 +125,22 @@ func (st *State) assume(t *Term) {
 	}
 	st.pcset[t.id] = true
 	st.pc = append(st.pc, t)
+	// constant propagation: an assumed equality with a constant is substituted into values computed later
+	if t.op == "=" {
+		a, b := t.args[0], t.args[1]
+		if b.isConst() && !a.isConst() {
+			st.setRewrite(a, b)
+		} else if a.isConst() && !b.isConst() {
+			st.setRewrite(b, a)
+		}
+	}
+}
+
+func (st *State) setRewrite(t, c *Term) {
+	if st.rewrites == nil {
+		st.rewrites = map[int]*Term{}
+	}
+	st.rewrites[t.id] = c
 }
 
 func (st *State) infeasible() bool {
